@@ -180,6 +180,13 @@ def render_guard(guard: Optional[GuardIR]) -> Optional[str]:
     if guard is None:
         return None
     if not guard.is_composite:
+        # 🧾 A parameterised guard (`stateIn` included) keeps its params; the
+        #    bare name alone denotes a different guard.
+        if guard.params is not None:
+            return (
+                f"{{'type': {literal(guard.type)}, "
+                f"'params': {literal(guard.params)}}}"
+            )
         return literal(guard.type)
     children = ", ".join(
         _render_guard_value(child) for child in guard.children
